@@ -402,17 +402,17 @@ func gcOnce(ctx context.Context, s storage.Storage) {
 // ---- witnesses / replay -------------------------------------------------------------
 
 type witness struct {
-	Part    string           `json:"part"`   // "seq" | "conc"
-	Config  string           `json:"config"` // cache kind / stack description
-	Index   int              `json:"history_index"`
-	Steps   int              `json:"steps"`
-	Tail    []vmodel.StepLog `json:"last_steps,omitempty"`
-	Diffs   []fieldDiff      `json:"differences,omitempty"`
-	Detail  any              `json:"detail,omitempty"`
-	Rounds  int              `json:"rounds,omitempty"`
+	Part   string           `json:"part"`   // "seq" | "conc"
+	Config string           `json:"config"` // cache kind / stack description
+	Index  int              `json:"history_index"`
+	Steps  int              `json:"steps"`
+	Tail   []vmodel.StepLog `json:"last_steps,omitempty"`
+	Diffs  []fieldDiff      `json:"differences,omitempty"`
+	Detail any              `json:"detail,omitempty"`
+	Rounds int              `json:"rounds,omitempty"`
 	// MultiRead: the history was generated with bodies > 32 KiB (see c20Profile)
 	MultiRead bool `json:"multi_read_bodies,omitempty"`
-	Retries int              `json:"replay_attempts,omitempty"`
+	Retries   int  `json:"replay_attempts,omitempty"`
 }
 
 type replayFile struct {
